@@ -10,13 +10,23 @@ ENGINE_FILES = [
     "io/io.go",
 ]
 
+# files whose map ranges are rewritten to the simulator-owned order, without yields
+MAPS_ONLY_FILES = [
+    "bql/semantic/semantic.go",
+    "bql/semantic/hooks.go",
+    "bql/semantic/expression.go",
+    "bql/semantic/convert.go",
+    "bql/grammar/parser.go",
+    "bql/grammar/grammar.go",
+]
+
 REAL_STORE = ["storage/memory (real code)", "triple, node, predicate, literal (real code)"]
 
 PROPS = {}
 
 PROPS["C01"] = dict(
     level="exploration",
-    instrument=[],
+    instrument=ENGINE_FILES,  # one instrumented build serves every check; with no active run the seams are pass-through
     budget=dict(quick=25, thorough=600),
     rule="seeded histories of 4-90 store operations (NewGraph/Graph/DeleteGraph/GraphNames, AddTriples/RemoveTriples batches with duplicates, overlaps, "
          "empty batches, stale handles of dropped graphs) over 1-3 graphs and a universe of 8-20 triples; after EVERY operation the complete observable state "
@@ -40,6 +50,26 @@ PROPS["C09"] = dict(PROPS["C01"],
          "value must be unchanged after the call. Non-trivial: at least one non-empty batch applied before a lookup round",
 )
 
+PROPS["C07"] = dict(
+    simulated=True,
+    level="exploration",
+    instrument=ENGINE_FILES,
+    budget=dict(quick=40, thorough=900),
+    rule="2-4 simulated clients x 1-4 operations (AddTriples/RemoveTriples batches, Exist, all lookups incl. shared LookupOptions values with LatestAnchor / "
+         "filter / window, GraphNames, NewGraph/Graph/DeleteGraph with handles outliving a drop) on 1-2 graphs of one store over a universe of 3-7 triples; "
+         "every statement boundary of the instrumented storage/memory copy is a switch point, preemption budget 0-5, RWMutex writer preference on/off, result "
+         "channel capacity 0/1/8, all drawn from the seed. Oracles: porcupine linearizability of the recorded history (events stamped with the scheduler's "
+         "global event sequence; AddTriples batch atomic, RemoveTriples expanded to single-triple removals sharing the call interval), no panic, no deadlock "
+         "(no runnable task while a client is unfinished), step cap, channel closed exactly once also on error, shared options unmodified between every two "
+         "scheduler steps, no goroutine left. Non-trivial: at least one scheduling decision with >= 2 runnable tasks, >= 2 clients on one graph, >= 1 write; "
+         "distinct = distinct (recorded history, pick sequence) pairs",
+    components_real=["storage/memory (real code, instrumented scratch copy: sim.Yield before every statement, sim.RWMutex)", "triple, node, predicate, literal (real code)"],
+    components_stub=["clients and channel drainers (harness tasks)", "scheduler: seeded cooperative baton scheduler inside a testing/synctest bubble (x/sim)"],
+    assumptions=["switch points are statement boundaries: a torn single statement (racy append / map write inside one statement) is below the simulator's granularity; the race clause of C07 is covered only as far as unsynchronised multi-statement updates become visible to the linearizability / invariant oracles",
+                 "sim.RWMutex admits any hand-over order (a superset of sync.RWMutex); Go's writer preference is modelled as a per-run flag",
+                 "porcupine timeouts (10 s) are counted as inconclusive, never reported"],
+)
+
 # ---------------------------------------------------------------------------
 # Texts for MANIFEST.json (level claimed, trusted base, technique)
 MANIFEST_TEXT = {}
@@ -58,3 +88,7 @@ MANIFEST_TEXT["C09"] = dict(
     text="seeded exploration: lookups with generated options compared with the documented definition (window, filter function, page) over the reference set; paging judged against the implementation's own unpaged order",
     note=_store_note,
     technique="deterministic simulation (single-client configuration): seeded history and configuration search against a reference definition of the lookup options")
+MANIFEST_TEXT["C07"] = dict(
+    text="seeded search over interleavings of concurrent clients at statement granularity with linearizability checking of every recorded history and invariants evaluated between scheduler steps; many short diverse runs, each exactly replayable from its tape",
+    note="trusted base: x/sim scheduler + testing/synctest quiescence, the go/ast instrumenter (its pass-through self-test runs the repository's own tests on the instrumented copy), porcupine v1.3.0, the set model; data races inside a single statement are not reachable",
+    technique="deterministic simulation: seeded cooperative scheduler over real goroutines (synctest bubble), AST-inserted yield points and sim mutexes in a scratch copy, porcupine linearizability check, schedule+workload shrinking, replay from tape")
